@@ -206,7 +206,7 @@ theorem upsert_single_pre (s : Store α) (e : α × Node α) (hinv : StoreInv s)
 theorem upsert_single_ok (s : Store α) (e : α × Node α) (hinv : StoreInv s) (hpure : e.2.indirect = [])
     (old : Node α) (hold : get s e.1 = some old)
     (hacyc : ∀ x, ¬ Reach (shape (upsertOne (s, []) e).1) x x) :
-    ∃ s', upsertEntities .compute s [e] = .ok s' ∧ StoreInv s' ∧
+    ∃ s', upsertApply .compute s [e] = .ok s' ∧ StoreInv s' ∧
       parentGraph s' = specUpsert (parentGraph s) [e] := by
   obtain ⟨p1, p2, p3, p4⟩ := upsert_single_pre s e hinv hpure old hold
   have hun : ∀ k, k ∈ keys (upsertOne (s, []) e).1 →
@@ -215,17 +215,17 @@ theorem upsert_single_ok (s : Store α) (e : α × Node α) (hinv : StoreInv s) 
     fun k hk hkt => p2 k hk (fun h' => hkt (touchPass_sub _ _ _ h'))
   obtain ⟨s', hok, hinv', hpg⟩ := repair_establishes _ _ p1 hacyc hun p3
   refine ⟨s', ?_, hinv', by rw [hpg, p4]⟩
-  unfold upsertEntities
+  unfold upsertApply
   simp only [List.foldl_cons, List.foldl_nil, finish, if_true]
   exact hok
 
 /-- … it fails only with `cycle`, and only if the resulting parent graph has a cycle -/
 theorem upsert_single_err (s : Store α) (e : α × Node α) (hinv : StoreInv s) (hpure : e.2.indirect = [])
     (old : Node α) (hold : get s e.1 = some old) (err : Err)
-    (h : upsertEntities .compute s [e] = .error err) :
+    (h : upsertApply .compute s [e] = .error err) :
     err = .cycle ∧ ∃ x, Reach (shape (upsertOne (s, []) e).1) x x := by
   obtain ⟨p1, _, _, _⟩ := upsert_single_pre s e hinv hpure old hold
-  unfold upsertEntities at h
+  unfold upsertApply at h
   simp only [List.foldl_cons, List.foldl_nil, finish, if_true] at h
   obtain ⟨r1, _, r3⟩ := repairTc_sound _ (touchPass (upsertOne (s, []) e).1 (upsertOne (s, []) e).2) _ p1
   have := r3 err h
@@ -234,8 +234,8 @@ theorem upsert_single_err (s : Store α) (e : α × Node α) (hinv : StoreInv s)
 
 /-- upserting one entity whose uid has no record is `add_entities` of that entity -/
 theorem upsert_single_new (s : Store α) (e : α × Node α) (hnew : get s e.1 = none) :
-    upsertEntities .compute s [e] = addEntities .compute s [e] := by
-  unfold upsertEntities addEntities
+    upsertApply .compute s [e] = addEntities .compute s [e] := by
+  unfold upsertApply addEntities
   simp [upsertOne, addLoop, updateEntityMap, hnew]
 
 end Cedar.TC
